@@ -52,6 +52,7 @@ pub struct Outcome {
     pub quiescent: bool,
     pub multi_outstanding: bool,
     pub driver: String,
+    pub pending: Vec<usize>,
 }
 
 /// executions in flight per worker thread: (start, scenario, path) — read by the watchdog
@@ -133,6 +134,7 @@ pub fn run_path(scn: &Arc<Scenario>, path: &[Action], check_prefix: bool) -> Out
             viol: w.viol.clone(),
             logs: w.logs(),
             quiescent: w.quiescent(),
+            pending: w.pending_clients(),
             multi_outstanding: w.stats_multi_outstanding,
             driver: match &w.dstatus {
                 super::world::DriverStatus::Running => "running".into(),
